@@ -1,6 +1,6 @@
 (* C01 - property theorems only; proofs live in Base/PyStrProofs.v, Codec/JsonProofs.v,
-   Codec/PacketProofs.v, Codec/SpecProofs.v, Check/C01CheckProofs.v *)
-From VT Require Import Base.PyStrProofs Codec.JsonProofs Codec.PacketProofs Codec.SpecProofs.
+   Codec/JsonParse.v, Codec/JsonInj.v, Codec/PacketProofs.v, Codec/SpecProofs.v, Check/C01CheckProofs.v *)
+From VT Require Import Base.PyStrProofs Codec.JsonProofs Codec.JsonParse Codec.JsonInj Codec.PacketProofs Codec.SpecProofs.
 From VT Require Import Codec.Packet Codec.SpecCodec Check.C01Check Check.C01CheckProofs.
 
 (* wire conformance: the encoder IS the specification-derived encoder, on every packet *)
@@ -51,7 +51,7 @@ Print Assumptions C01_json_first_char.
 Theorem C01_roundtrip_partial : forall loads : str -> Res pv,
   (forall v s, jsonable v = true -> json_dumps v = Ok s -> loads s = Ok v) ->
   forall t data ns id p f atts,
-  wf_input t data ns id = true -> floats_ok data = true ->
+  wf_input t data ns id = true -> lex_ok data = true ->
   ctor true t data ns id None = Ok p ->
   encode p = Ok (f, atts) ->
   (N.of_nat (List.length (atts_of atts)) < 10000000000)%N ->
@@ -138,7 +138,7 @@ Print Assumptions C01_model_enc_ok.
 Theorem C01_interop_spec_decode : forall loads : str -> Res pv,
   (forall v s, jsonable v = true -> json_dumps v = Ok s -> loads s = Ok v) ->
   forall t data ns id p f atts,
-  wf_input t data ns id = true -> floats_ok data = true ->
+  wf_input t data ns id = true -> lex_ok data = true ->
   ctor true t data ns id None = Ok p ->
   encode p = Ok (f, atts) ->
   (N.of_nat (List.length (atts_of atts)) < 10000000000)%N ->
@@ -150,7 +150,7 @@ Print Assumptions C01_interop_spec_decode.
 Theorem C01_interop_spec_encode : forall loads : str -> Res pv,
   (forall v s, jsonable v = true -> json_dumps v = Ok s -> loads s = Ok v) ->
   forall t data ns id p f atts,
-  wf_input t data ns id = true -> floats_ok data = true ->
+  wf_input t data ns id = true -> lex_ok data = true ->
   ctor true t data ns id None = Ok p ->
   spec_encode p = Ok (f, atts) ->
   (N.of_nat (List.length (atts_of atts)) < 10000000000)%N ->
@@ -171,3 +171,93 @@ Theorem C01_number_payload_refuted : forall loads,
             spec_decode loads (s2l "45") = Ok (mkSpec 4 (s2l "/") (Some 5%Z) PNone 0%N).
 Proof. exact number_payload_refuted. Qed.
 Print Assumptions C01_number_payload_refuted.
+
+(* ---- the JSON oracle discharged: a concrete parser inverts the concrete printer ---- *)
+Theorem C01_parse_dumps : forall v s,
+  parseable v = true -> json_dumps v = Ok s -> json_parse s = Some (v, []).
+Proof. exact parse_dumps. Qed.
+Print Assumptions C01_parse_dumps.
+
+Theorem C01_json_unique_readability : forall v1 v2 s1 s2 r1 r2,
+  parseable v1 = true -> parseable v2 = true ->
+  json_dumps v1 = Ok s1 -> json_dumps v2 = Ok s2 ->
+  rest_ok r1 -> rest_ok r2 ->
+  s1 ++ r1 = s2 ++ r2 -> v1 = v2 /\ s1 = s2 /\ r1 = r2.
+Proof. exact dumps_unique_readability. Qed.
+Print Assumptions C01_json_unique_readability.
+
+Theorem C01_json_dumps_injective : forall v1 v2 s,
+  jsonable v1 = true -> jsonable v2 = true ->
+  json_dumps v1 = Ok s -> json_dumps v2 = Ok s -> v1 = v2.
+Proof. exact json_dumps_injective_jsonable. Qed.
+Print Assumptions C01_json_dumps_injective.
+
+(* the premise of C01_roundtrip_partial / C01_interop_* is satisfiable *)
+Theorem C01_loads_exists :
+  exists loads : str -> Res pv,
+    forall v s, jsonable v = true -> json_dumps v = Ok s -> loads s = Ok v.
+Proof. exact loads_exists_jsonable. Qed.
+Print Assumptions C01_loads_exists.
+
+(* outside str_ok the printer is not injective: high+low surrogate = the non-BMP character *)
+Theorem C01_surrogate_pair_collision :
+  json_dumps (PStr [55357; 56832]%N) = json_dumps (PStr [128512]%N) /\
+  str_ok [55357; 56832]%N = false /\ str_ok [128512]%N = true /\
+  (s <- json_dumps (PStr [55357; 56832]%N) ;; json_loads s) = Ok (PStr [128512]%N).
+Proof. exact surrogate_pair_collision. Qed.
+Print Assumptions C01_surrogate_pair_collision.
+
+(* round trip with json.loads := the concrete parser: no oracle premise *)
+Theorem C01_roundtrip_concrete : forall t data ns id p f atts,
+  wf_input t data ns id = true -> lex_ok data = true ->
+  ctor true t data ns id None = Ok p ->
+  encode p = Ok (f, atts) ->
+  (N.of_nat (List.length (atts_of atts)) < 10000000000)%N ->
+  exists r r' flags,
+    decode json_loads (PStr f) = Ok r /\
+    rcount r = N.of_nat (List.length (atts_of atts)) /\
+    add_all r (map PBytes (atts_of atts)) = Ok (r', flags) /\
+    flags = last_only (List.length (atts_of atts)) /\
+    rt_ok t data ns id None (map PBytes (atts_of atts)) (Ok (rp r', rcount r, flags)) = true.
+Proof. exact roundtrip_concrete. Qed.
+Print Assumptions C01_roundtrip_concrete.
+
+(* ... and without assuming that construction / encoding succeeded *)
+Theorem C01_roundtrip : forall t data ns id,
+  wf_input t data ns id = true -> lex_ok data = true ->
+  (has_bytes data = true -> (t = 2 \/ t = 3)%Z) ->
+  (N.of_nat (List.length (leaves data)) < 10000000000)%N ->
+  exists p f atts, ctor true t data ns id None = Ok p /\ encode p = Ok (f, atts) /\
+                   atts_of atts = leaves data /\
+  exists r r' flags,
+    decode json_loads (PStr f) = Ok r /\
+    rcount r = N.of_nat (List.length (leaves data)) /\
+    add_all r (map PBytes (leaves data)) = Ok (r', flags) /\
+    flags = last_only (List.length (leaves data)) /\
+    rt_ok t data ns id None (map PBytes (leaves data)) (Ok (rp r', rcount r, flags)) = true.
+Proof. exact roundtrip_total_concrete. Qed.
+Print Assumptions C01_roundtrip.
+
+Theorem C01_interop_spec_decode_concrete : forall t data ns id p f atts,
+  wf_input t data ns id = true -> lex_ok data = true ->
+  ctor true t data ns id None = Ok p ->
+  encode p = Ok (f, atts) ->
+  (N.of_nat (List.length (atts_of atts)) < 10000000000)%N ->
+  spec_decode json_loads f =
+  Ok (mkSpec (promoted t data None) (sns_of ns) id (subst data 0) (N.of_nat (List.length (atts_of atts)))).
+Proof. exact interop_spec_decode_concrete. Qed.
+Print Assumptions C01_interop_spec_decode_concrete.
+
+Theorem C01_interop_spec_encode_concrete : forall t data ns id p f atts,
+  wf_input t data ns id = true -> lex_ok data = true ->
+  ctor true t data ns id None = Ok p ->
+  spec_encode p = Ok (f, atts) ->
+  (N.of_nat (List.length (atts_of atts)) < 10000000000)%N ->
+  exists r r' flags,
+    decode json_loads (PStr f) = Ok r /\
+    rcount r = N.of_nat (List.length (atts_of atts)) /\
+    add_all r (map PBytes (atts_of atts)) = Ok (r', flags) /\
+    flags = last_only (List.length (atts_of atts)) /\
+    rt_ok t data ns id None (map PBytes (atts_of atts)) (Ok (rp r', rcount r, flags)) = true.
+Proof. exact interop_spec_encode_concrete. Qed.
+Print Assumptions C01_interop_spec_encode_concrete.
